@@ -261,7 +261,9 @@ End == /\ Is("end")
 
 \* earlyfree: a block handed to the memory manager was released without an epoch change in between
 \* (conformance with MQMem: release only from the batch handed over at an epoch change)
-MemEv == /\ (Is("uaf") \/ Is("badfree") \/ Is("doublefree") \/ Is("earlyfree"))
+\* tokenless: a handle read the published stream list after it had given its token back (MQMem: holds[h] # {} only
+\* for handles in DOMAIN tok)
+MemEv == /\ (Is("uaf") \/ Is("badfree") \/ Is("doublefree") \/ Is("earlyfree") \/ Is("tokenless"))
          /\ Flag({"C16"})
          /\ UNCHANGED <<q, pend, led>>
          /\ l' = l + 1
